@@ -296,6 +296,24 @@ def run(rep):
         if len(rep.violations) >= 40:
             break
     rep.notes["scenarios"] = len(vecs)
+    # requests in flight together (each in its own thread), scheduled line by line
+    from engine import vsched
+    vsched.install(rep.seed)
+    rng2 = random.Random(rep.seed * 7919 + 130)
+    ncc = 0
+    for i in range(20 if rep.tier == "quick" else 400):
+        for outs in (("answer", "answer"), ("raise", "raise"), ("answer", "none")):
+            for wl in (False, True):
+                seed = rng2.getrandbits(30)
+                verdict = run_concurrent(seed, outs, wl)
+                ncc += 1
+                rep.case(("concurrent", i, outs, wl))
+                if verdict:
+                    rep.violation(f"two requests handled at the same time (handler outcomes {outs}{', a local caller waiting on the same Hop-by-Hop' if wl else ''}): {verdict}",
+                                  {"kind": "concurrent", "seed": seed, "outcomes": list(outs), "with_local": wl})
+        if len(rep.violations) >= 10:
+            break
+    rep.notes["concurrent_executions"] = ncc
     rep.sample({"scenario": vecs[len(vecs) // 2]})
     rep.exhaustive = True
 
@@ -324,6 +342,16 @@ def run(rep):
 
 def replay(rep, path):
     r = json.load(open(path))["replay"]
+    if r.get("kind") == "concurrent":
+        from engine import vsched
+        vsched.install(0)
+        verdict = run_concurrent(r["seed"], tuple(r["outcomes"]), r["with_local"])
+        if verdict:
+            rep.violation(verdict, r)
+        rep.case(str(r)[:80])
+        rep.states, rep.transitions = 1, 1
+        rep.sample(r)
+        return rep.finish()
     router = Router()
     rng = random.Random(rep.seed)
     obs, problems = run_scenario(router, r["table"], r["reqs"], rng)
@@ -339,3 +367,106 @@ def replay(rep, path):
     rep.states, rep.transitions = 1, 1
     rep.sample(r)
     return rep.finish()
+
+
+# ------------------------------------------------------------------------------------------- requests in flight together
+def run_concurrent(seed, outcomes, with_local=False):
+    """Two requests from the peer are handled at the same time (each in its own thread, as Bromelia.main does through
+    create_message_thread), under the deterministic scheduler with every line of the dispatch code a preemption point; an
+    earlier failing request has been handled before.  outcomes: per request 'answer' | 'raise' | 'none'.  with_local: a local
+    send_message() caller is waiting for an answer whose Hop-by-Hop equals that of the peer's first request.
+    Each request must get exactly one answer carrying its own identifiers and Session-Id."""
+    from engine import vsched
+    from . import c14
+    from bromelia.base import DiameterAnswer
+    from bromelia.avps import ResultCodeAVP
+    s = vsched.new_sched(seed, max_steps=60000)
+    s.line_funcs = {"callback_route", "create_error_answer", "decorate_answer", "send_message", "set_outgoing_message", "get_request_callback",
+                    "create_message_thread", "handler_pending_answers", "is_pending_answer"}
+    s.line_budget = 6000
+    global InProcessManager
+    saved_mgr, InProcessManager = InProcessManager, c14.SchedManager
+    try:
+        router = Router()
+    finally:
+        InProcessManager = saved_mgr
+    app = router.app
+    rng = random.Random(seed)
+    gate = vsched.VEvent()
+    ran = []
+
+    def handler(request):
+        k = int(request.user_name_avp.data[4:])
+        ran.append(k)
+        if k == 1:
+            gate.wait()                      # the first request is still being handled when the second one comes in
+        else:
+            gate.set()
+        out = outcomes[k - 1] if k >= 1 else "raise"
+        if out == "raise":
+            raise ValueError("handler failed")
+        if out == "none":
+            return None
+        return make_answer(request, rng)
+    router.register(app_bytes("a1"), cmd_bytes("c1"), handler)
+    worker = router.workers[app_bytes("a1")]
+    sent = []
+
+    def consumer():
+        while True:
+            msg = worker.send_queue.get()
+            worker.send_event.clear()
+            worker.send_lock.release()
+            sent.append(msg)
+    s.spawn("worker_send_handler", consumer)
+    # an earlier failure, alone
+    r0 = make_request("a1", "c1", 0, rng)
+    t0 = app.create_message_thread(r0)
+    s.run(until=lambda: t0.done and len(sent) >= 1)
+    reqs = [make_request("a1", "c1", k, rng) for k in (1, 2)]
+    local_result = []
+    if with_local:
+        local = make_request("a1", "c1", 7, rng)
+        local.header.hop_by_hop = reqs[0].header.hop_by_hop
+        tl = s.spawn("local_caller", lambda: local_result.append(app.send_message(local)))
+        s.run(until=lambda: tl.pending is not None and tl.pending[0] == "wait" and len(sent) >= 2)
+    base = len(sent)
+    ts = [app.create_message_thread(r) for r in reqs]
+    chooser = vsched.PCT(seed, depth=1 + seed % 3, horizon=300) if seed % 3 else None
+    try:
+        s.run(until=lambda: all(t.done for t in ts) and len(sent) >= base + 2, chooser=chooser)
+        out = "ok"
+    except vsched.Deadlock as e:
+        out = "deadlock: " + str(e)
+    except (vsched.StepLimit, vsched.StepHang) as e:
+        out = type(e).__name__ + ": " + str(e)
+    problems = []
+    if out != "ok":
+        problems.append(out[:300])
+    answers = [m for m in sent[base:] if not m.header.is_request()]
+    for k, r in enumerate(reqs, 1):
+        mine = [m for m in answers if m.header.hop_by_hop == r.header.hop_by_hop and m.header.end_to_end == r.header.end_to_end]
+        if len(mine) != 1:
+            problems.append(f"request {k} ({outcomes[k - 1]}) got {len(mine)} answer(s) with its identifiers ({len(answers)} answers sent in all)")
+        elif not mine[0].has_avp("session_id_avp") or mine[0].session_id_avp.data != r.session_id_avp.data:
+            problems.append(f"the answer to request {k} carries another request's Session-Id")
+        elif outcomes[k - 1] != "answer" and (not mine[0].has_avp("result_code_avp") or mine[0].result_code_avp.data != (5012).to_bytes(4, "big")):
+            problems.append(f"request {k} ({outcomes[k - 1]}) was not answered with DIAMETER_UNABLE_TO_COMPLY")
+    if sorted(x for x in ran if x in (1, 2)) != [1, 2]:
+        problems.append(f"handler invocations for the two requests: {ran}")
+    if with_local:
+        if local_result:
+            problems.append("the local caller was released by the peer's request (it is still waiting for its answer)")
+        else:
+            app.create_message_thread(DiameterAnswer(header=local.header, avps=[ResultCodeAVP(2001)]))
+            try:
+                s.run(until=lambda: tl.done)
+            except BaseException as e:
+                problems.append(f"the local caller never got its answer: {type(e).__name__}")
+            if local_result and (local_result[0] is None or local_result[0].header.is_request()):
+                problems.append("the local caller was given something that is not an answer")
+    dead = [(t.name, f"{type(t.exc).__name__}: {t.exc}") for t in s.threads if t.exc is not None and not t.name.startswith("recv_request")]
+    if dead:
+        problems.append(f"threads ended by exception: {dead}")
+    s.kill_all()
+    return "; ".join(problems) if problems else None
